@@ -148,4 +148,52 @@ mod verif_kani {
         let cd = ChunkDescriptor { checksum: HashSum::from(&[0u8; 0][..]), archive_size: size, archive_offset: off, source_size: kani::any() };
         assert!(cd.archive_end_offset() as u128 == off as u128 + size as u128);
     }
+
+    /// mock inner stream: yields a symbolic item per poll
+    struct MockStream { polls: u8 }
+    #[derive(Clone, Copy, PartialEq, Debug)]
+    enum Item { Ok(u8), Err(u8), End, Pending }
+    fn any_item() -> Item {
+        let k: u8 = kani::any();
+        let v: u8 = kani::any();
+        match k % 4 { 0 => Item::Ok(v), 1 => Item::Err(v), 2 => Item::End, _ => Item::Pending }
+    }
+    impl Stream for MockStream {
+        type Item = Result<u8, u8>;
+        fn poll_next(mut self: std::pin::Pin<&mut Self>, _cx: &mut std::task::Context<'_>) -> Poll<Option<Self::Item>> {
+            self.polls += 1;
+            match any_item() {
+                Item::Ok(v) => Poll::Ready(Some(Ok(v))),
+                Item::Err(v) => Poll::Ready(Some(Err(v))),
+                Item::End => Poll::Ready(None),
+                Item::Pending => Poll::Pending,
+            }
+        }
+    }
+
+    /// StreamUntilFirstError: items are forwarded unchanged; after the first Err every poll returns None
+    /// WITHOUT polling the inner stream again (three polls, all inner behaviours).
+    #[kani::proof]
+    #[kani::unwind(5)]
+    fn stream_until_first_error() {
+        let mut s = StreamUntilFirstError::new(MockStream { polls: 0 });
+        let waker = std::task::Waker::noop();
+        let mut cx = std::task::Context::from_waker(&waker);
+        let mut seen_err = false;
+        let mut i = 0;
+        while i < 3 {
+            let before = s.stream.polls;
+            let r = std::pin::Pin::new(&mut s).poll_next(&mut cx);
+            if seen_err {
+                assert!(matches!(r, Poll::Ready(None)));
+                assert!(s.stream.polls == before);
+            } else {
+                assert!(s.stream.polls == before + 1);
+                if let Poll::Ready(Some(Err(_))) = r { seen_err = true; }
+                assert!(s.end == seen_err);
+            }
+            i += 1;
+        }
+        kani::cover!(seen_err);
+    }
 }
